@@ -22,6 +22,7 @@ inductive Atom where
   | space               -- `\s`
   | notSpace            -- `\S`
   | ch (c : Char)       -- a literal character
+  | any                 -- `.` (round 5c, sniff patterns): any character but the newline
 deriving Repr, DecidableEq
 
 def Atom.test : Atom → Char → Bool
@@ -30,6 +31,7 @@ def Atom.test : Atom → Char → Bool
   | .space, c => isSpaceCh c
   | .notSpace, c => !isSpaceCh c
   | .ch a, c => c == a
+  | .any, c => c != '\n'
 
 /-- a character class: union of its items (`[\w.]` = `[word, ch '.']`; `\d` = `[digit]`; `:` = `[ch ':']`) -/
 abbrev Cls := List Atom
